@@ -35,16 +35,17 @@ def _applied_body(call):
     return fn.output
 
 
-def navigate(p: sc.Program):
+def navigate(p: sc.Program, src=None, keys=None):
     """Reach the reference through the document. -> (source, Identifier-like object), or raises Unreachable"""
     from nix_manipulator import parse
 
-    src = parse(p.text)
+    if src is None:
+        src = parse(p.text)
     cur = src
     body = _applied_body(src.expr)
     if body is not None:
         cur = body
-    for k in p.keys:
+    for k in (p.keys if keys is None else keys):
         if not hasattr(cur, "__getitem__"):
             raise Unreachable(f"{type(cur).__name__} is not subscriptable")
         cur = cur[k]
@@ -361,12 +362,64 @@ def edit_observe(p: sc.Program, mode: str):
         return ("err", type(e).__name__, str(e)[:80])
 
 
+def history_differential(p: sc.Program):
+    """API history: edit through the reference, change which names the enclosing set binds (delete
+    or add `a` in the set that holds the reference), look the reference up again and edit through it
+    a second time.  The live document must end up exactly like a freshly parsed copy of its own text
+    taken after the structural change (no hand-written expectation). -> list of (cls, detail)"""
+    from nix_manipulator import parse
+
+    out = []
+    for op2 in ("del-a", "add-a"):
+        try:
+            src, ref = navigate(p)
+            if type(ref).__name__ != "Identifier":
+                return []
+            try:
+                ref.value = 77
+            except Exception:
+                pass
+            parent = navigate(p, src=src, keys=p.keys[:-1])[1] if len(p.keys) > 1 else src
+            try:
+                if op2 == "del-a":
+                    del parent["a"]
+                else:
+                    parent["a"] = 55
+            except Exception:
+                continue  # this structural change does not apply to this shape
+            mid = src.rebuild()
+
+            def second(s):
+                try:
+                    r = navigate(p, src=s)[1]
+                    if type(r).__name__ != "Identifier":
+                        return ("not-a-reference", s.rebuild())
+                    r.value = 78
+                    return ("ok", s.rebuild())
+                except Exception as e:
+                    return ("raises:" + type(e).__name__, s.rebuild())
+
+            live = second(src)
+            fresh = second(parse(mid))
+            # compare code tokens, not layout (layout fixed-point defects are C06's business)
+            if (live[0], int_tokens(live[1])[1]) != (fresh[0], int_tokens(fresh[1])[1]):
+                out.append(("live-vs-fresh-differs", f"{p.text!r}: after `ref.value = 77`, `{op2}` on the enclosing set and a second `ref.value = 78`: live document gives {live}, a fresh parse of {mid!r} gives {fresh}"))
+        except Unreachable:
+            return []
+        except Exception:
+            continue
+    return out
+
+
 def int_tokens(text):
     err, leaves = obs.lex(text)
     return err, [(l.type, l.text) for l in leaves if l.type != "comment"]
 
 
 def judge_c11(p: sc.Program, mode: str):
+    if mode == "api-history":
+        found = history_differential(p)
+        return ("history/differs" if found else "history/same"), found
     exp = sc.resolve(p)
     got = edit_observe(p, mode)
     if got[0] == "unreachable":
@@ -459,7 +512,9 @@ def run_c11(prop, tier):
             if sum(1 for k in levels if k in sc.PASS_THROUGH) > 1:
                 continue
             for inner in C11_INNERS:
-                for mode in ("cli", "api"):
+                for mode in ("cli", "api", "api-history"):
+                    if mode == "api-history" and n > 2:
+                        continue  # histories on nestings of depth <= 2
                     items.append((levels, inner, mode))
     chunks = [items[i : i + 400] for i in range(0, len(items), 400)]
     chunks = core.rotate(chunks, core.seed())
@@ -480,7 +535,7 @@ def run_c11(prop, tier):
         "samples": [{"text": sc.build(l, i).text, "mode": m, "edit": "set x 77" if m == "cli" else "ref.value = 77"} for l, i, m in core.pick_samples(items, 5)],
         "evaluations": n,
         "distinct_nontrivial": judged,
-        "rule": f"every nesting of <= {depth} levels x {len(C11_INNERS)} innermost shapes x (CLI set through the path | assignment through Identifier.value); every literal in a program is unique, so the one token that may change is named by the reference resolver; non-trivial = edit reachable",
+        "rule": f"every nesting of <= {depth} levels x {len(C11_INNERS)} innermost shapes x (CLI set through the path | assignment through Identifier.value | API history: edit, delete/add the name in the enclosing set, edit again - live document vs fresh parse); every literal in a program is unique, so the one token that may change is named by the reference resolver; non-trivial = edit reachable",
         "exhaustive": True,
         "outcomes": dict(tags),
         "distinct_outcome_classes": len(tags),
